@@ -336,8 +336,8 @@ class NlpCheck(Check):
     def run_case(self, desc, R, points=None):
         try:
             res = En.compare_case(desc, self.driver, self.rng, R=R, points=points, extra_phys=self.extra_phys)
-        except ZeroDivisionError:
-            return None
+        except (ZeroDivisionError, OverflowError):
+            return None      # the random point hit a pole / numbers beyond float range: not a finding
         except Exception as e:
             return e
         return res
